@@ -1,5 +1,5 @@
 CONSTANTS MaxLimit = 5  Variant = "code"
-  Outcomes = {"ok", "http500", "http503", "refused", "attemptTimeout", "eof", "tokenRetryable", "usage", "tokenFatal", "malformed", "forbidden"}
+  Outcomes = {"ok", "http500", "http503", "refused", "attemptTimeout", "eof", "closed", "tokenRetryable", "usage", "tokenFatal", "malformed", "forbidden"}
 SPECIFICATION Spec
 INVARIANTS TypeOK AtMostLimit PermanentAtOnce SuccessHonest FaithfulFailure CancelResult Export
 CHECK_DEADLOCK FALSE
